@@ -253,6 +253,14 @@ class ModelInterp(Interp):
             if isinstance(v, (int, float)) and not isinstance(v, bool):
                 return -v
             raise DTop("negation")
+        if isinstance(e, ast.Dict) and any(k is None for k in e.keys):
+            out = {}
+            for k, v in zip(e.keys, e.values):
+                if k is None:
+                    out.update(self.ev(v))  # {**d, ...}
+                else:
+                    out[self.ev(k)] = self.ev(v)
+            return out
         if isinstance(e, (ast.Tuple, ast.List)) and any(isinstance(x, ast.Starred) for x in e.elts):
             out = []
             for x in e.elts:
